@@ -837,4 +837,54 @@ theorem determine_unitdef (k : Nat) (w : Char) (rest : Str) (hw : isWs w = true)
   rw [hb]
   rfl
 
+/-! ### escaped quotes: single quotes, and modification lines -/
+
+/-- `encode` on a line `A '…escaped…' B` whose other parts contain no backslash or newline -/
+theorem encode_escaped_sq (A B s : Str) (hA : NoEsc A) (hB : NoEsc B) (hs : ∀ c ∈ s, c ≠ '\\' ∧ c ≠ '\n') :
+    encode (A ++ '\'' :: (escQ '\'' s ++ '\'' :: B)) = A ++ '\'' :: (encQ '\'' enc0 s ++ '\'' :: B) := by
+  have hsb : ∀ c ∈ s, c ≠ '\\' := fun c hc => (hs c hc).1
+  have hBq : ∀ (pat rep : Str), pat.head? = some '\\' → replaceAll pat rep ('\'' :: B) = '\'' :: B := by
+    intro pat rep hp
+    exact replaceAll_id pat rep '\\' hp _ (by
+      intro c hc
+      rcases List.mem_cons.mp hc with rfl | h1
+      · decide
+      · exact (hB c h1).1)
+  have e0 : enc0 = ['$', '@', '0', '0'] := by decide
+  have hres : NoEsc (A ++ '\'' :: (encQ '\'' enc0 s ++ '\'' :: B)) := by
+    intro c hc
+    simp only [List.mem_append, List.mem_cons] at hc
+    rcases hc with h1 | rfl | h1 | rfl | h1
+    · exact hA c h1
+    · exact ⟨by decide, by decide⟩
+    · revert c
+      apply encQ_chars '\'' enc0 (fun c => c ≠ '\\' ∧ c ≠ '\n')
+      · rw [e0]; decide
+      · intro c hc _; exact hs c hc
+    · exact ⟨by decide, by decide⟩
+    · exact hB c h1
+  simp only [encode]
+  rw [replaceAll_prefix_id _ _ '\\' rfl _ A (fun c hc => (hA c hc).1),
+    replaceAll_head _ _ '\'' (by decide),
+    replaceAll_own_escQ '\'' (by decide) _ _ (hBq _ _ rfl) s hsb]
+  rw [replaceAll_id _ _ '\\' rfl _ (fun c hc => (hres c hc).1), replaceAll_id _ _ '\n' rfl _ (fun c hc => (hres c hc).2)]
+
+def modifyPrefix (nm : Str) (a b : Nat) : Str := nm ++ (List.replicate (a + 1) ' ' ++ '=' :: List.replicate b ' ')
+
+theorem modify_render_prefix (nm : Str) (a b : Nat) (v : ValD) :
+    (LineD.modify nm a b v).render = modifyPrefix nm a b ++ v.render := by
+  simp [LineD.render, modifyPrefix, List.append_assoc]
+
+theorem NoEsc_modifyPrefix (nm : Str) (a b : Nat) (hn : NameOk nm) : NoEsc (modifyPrefix nm a b) := by
+  unfold modifyPrefix
+  refine NoEsc_append (NoEsc_name nm hn) (NoEsc_append (NoEsc_spaces _) ?_)
+  intro x hx
+  rcases List.mem_cons.mp hx with rfl | hx
+  · exact ⟨by decide, by decide⟩
+  · exact NoEsc_spaces b x hx
+
+/-- the node of a modification line -/
+def modNode (k : Nat) (nm : Str) (text : Str) (unit : Option (Nat × Str)) : Node :=
+  { kind := .mod, indent := k, name := some nm, raw := some (.text text), units := unit.map Prod.snd }
+
 end SciVerif.C13
